@@ -134,8 +134,36 @@ def r16_2(ctx: Ctx):
     return obs
 
 
+def _prop_aliases(ctx, ci) -> dict:
+    """property name -> attribute it returns (`return self.<attr>`), over the class and its bases (the inherited accessors a
+    wrapper may read instead of the field itself)."""
+    out = {}
+    seen = set()
+    cur = [ci]
+    while cur:
+        c = cur.pop()
+        if c is None or c.qualname in seen:
+            continue
+        seen.add(c.qualname)
+        for nm, m in c.methods.items():
+            if getattr(m, "is_property", False) and nm not in out:
+                rets = [r for r in body_walk(m.node) if isinstance(r, ast.Return)]
+                if len(rets) == 1 and is_self_attr(rets[0].value, None, m.self_name()):
+                    out[nm] = rets[0].value.attr
+        cur.extend(getattr(c, "bases", []) or [])
+    return out
+
+
+_ALIASES: dict = {}
+
+
 def _norm_guard(cond: ast.AST, outcome: bool, counter: str, cutoff: str, selfn: str):
     """Returns the relation 'counter REL cutoff' that holds on this outcome: one of >=, >, <, <=, ==, != or None."""
+    def is_self_attr(e, attr, sn):  # noqa: F811  (accessor-aware: self.n_evaluations reads self._n_evals)
+        from ..core import is_self_attr as _isa
+
+        return _isa(e, attr, sn) or (attr is not None and _isa(e, None, sn) and _ALIASES.get(e.attr) == attr)
+
     if isinstance(cond, ast.NamedExpr):
         cond = cond.value
     if not (isinstance(cond, ast.Compare) and len(cond.ops) == 1):
@@ -180,6 +208,14 @@ def r16_3(ctx: Ctx):
     cutoff = _cutoff_attr(ctx, ci)
     sums = evaluate_summaries(ctx, ci)
     obs = []
+    _ALIASES.clear()
+    _ALIASES.update(_prop_aliases(ctx, ci))
+    _TABLES.clear()
+    for st_ in f.module.tree.body:
+        if isinstance(st_, (ast.Assign, ast.AnnAssign)) and isinstance(getattr(st_, "value", None), ast.Dict):
+            for t_ in (st_.targets if isinstance(st_, ast.Assign) else [st_.target]):
+                if isinstance(t_, ast.Name):
+                    _TABLES[t_.id] = st_.value
     refusing = [s for s in sums if s.forwards == 0]
     forwarding = [s for s in sums if s.forwards > 0]
     if not refusing:
@@ -194,7 +230,8 @@ def r16_3(ctx: Ctx):
                 msg = f"refuses only when {counter} > {cutoff}: forwards cutoff + 1 evaluations (off by one)"
             else:
                 msg = f"a refusing path is not guarded by {counter} >= {cutoff}"
-            obs.append(ctx.ob("R16.3", f, s.ret_node, status=VIOLATION, detail=msg, witness=[f"L{n.lineno}: {n.label[:80]}" for n in s.nodes], construct="guard:" + ",".join(r for r, _ in rels)))
+            opaque = not rels and any(c.ast is not None and not isinstance(c.ast, (ast.Constant,)) for c, _ in s.conds)
+            obs.append(ctx.ob("R16.3", f, s.ret_node, status=INCONCLUSIVE if opaque else VIOLATION, detail=msg if not opaque else f"cannot relate the conditions on a refusing path ({', '.join(norm(c.ast)[:40] for c, _ in s.conds)}) to {counter} >= {cutoff}", witness=[f"L{n.lineno}: {n.label[:80]}" for n in s.nodes], construct="guard:" + ",".join(r for r, _ in rels)))
         else:
             obs.append(ctx.ob("R16.3", f, rels[0][1].ast, detail=f"refusing path guarded by {counter} {rels[0][0]} {cutoff}", construct="guard"))
         # sentinel
@@ -210,7 +247,8 @@ def r16_3(ctx: Ctx):
         rels = [_norm_guard(c.ast, lab, counter, cutoff, selfn) for c, lab in s.conds]
         rels = [r for r in rels if r]
         if not any(r in ("<", "!=") for r in rels):
-            obs.append(ctx.ob("R16.3", f, s.ret_node, status=VIOLATION, detail=f"a forwarding path is not guarded by {counter} < {cutoff}", witness=[f"L{n.lineno}: {n.label[:80]}" for n in s.nodes], construct="fwd-guard:" + ",".join(rels)))
+            opaque = not rels and any(c.ast is not None for c, _ in s.conds)
+            obs.append(ctx.ob("R16.3", f, s.ret_node, status=INCONCLUSIVE if opaque else VIOLATION, detail=f"a forwarding path is not guarded by {counter} < {cutoff}" if not opaque else f"cannot relate the conditions on a forwarding path to {counter} < {cutoff}", witness=[f"L{n.lineno}: {n.label[:80]}" for n in s.nodes], construct="fwd-guard:" + ",".join(rels)))
     # cutoff written only by the constructor
     for f2 in ctx.prog.all_functions():
         if f2.name == "<module>":
@@ -239,7 +277,23 @@ def _sentinel_polarity(v, selfn):
             if (a, b) == (1, -1):
                 return "swapped"
             return "bad"
+    if isinstance(v, ast.Subscript) and isinstance(v.value, ast.Name) and _TABLES.get(v.value.id) is not None:
+        d = _TABLES[v.value.id]
+        key = v.slice
+        if isinstance(key, ast.Call) and isinstance(key.func, ast.Name) and key.func.id == "bool" and len(key.args) == 1:
+            key = key.args[0]
+        if isinstance(key, ast.Attribute) and key.attr == "maximize":
+            ent = {k.value: inf_sign(val) for k, val in zip(d.keys, d.values) if isinstance(k, ast.Constant) and isinstance(k.value, bool)}
+            if ent.get(True) == -1 and ent.get(False) == 1:
+                return "ok"
+            if ent.get(True) == 1 and ent.get(False) == -1:
+                return "swapped"
+            if len(ent) == 2:
+                return "bad"
     return "unknown" if v is not None and inf_sign(v) == 0 else "bad"
+
+
+_TABLES: dict = {}  # module-level dict literals of the wrappers' module, by name (filled by r16_3)
 
 
 def r16_4(ctx: Ctx):
@@ -259,9 +313,11 @@ def r16_4(ctx: Ctx):
         before = kinds[:i_eta]
         ok_order = ("inc" in before) and ("forward" in before)
         eta_stmt = s.events[i_eta][1]
-        ok_val = is_self_attr(eta_stmt.value, counter, selfn)
+        aliases = _prop_aliases(ctx, ci)
+        ok_val = is_self_attr(eta_stmt.value, counter, selfn) or (is_self_attr(eta_stmt.value, None, selfn) and aliases.get(eta_stmt.value.attr) == counter)
         if not ok_val:
-            obs.append(ctx.ob("R16.4", f, eta_stmt, status=VIOLATION, detail=f"ETA is stored from `{norm(eta_stmt.value)}`, not from the evaluation counter"))
+            positively_other = isinstance(eta_stmt.value, ast.Constant) or (isinstance(eta_stmt.value, (ast.Attribute, ast.BinOp)) and not any(isinstance(x, ast.Call) for x in ast.walk(eta_stmt.value)))
+            obs.append(ctx.ob("R16.4", f, eta_stmt, status=VIOLATION if positively_other else INCONCLUSIVE, detail=f"ETA is stored from `{norm(eta_stmt.value)}`, not from the evaluation counter"))
         elif not ok_order:
             obs.append(ctx.ob("R16.4", f, eta_stmt, status=VIOLATION, detail="ETA is read from the counter before the forwarded evaluation was counted (0-based index)", witness=kinds))
         else:
